@@ -43,6 +43,11 @@ pub struct Session {
     pub log: SharedLog,
     /// (ticket, reason) when the runtime satisfied (Some) or dropped (None) the completion promise.
     pub completion: SharedCompletion,
+    /// Virtual (paused-clock) instants: when the attachment request was issued, and when the completion promise resolved.
+    pub attached_v: tokio::time::Instant,
+    pub completion_v: Arc<Mutex<Option<tokio::time::Instant>>>,
+    /// The routing id is that of an earlier attachment of the same remote slot (re-attachment after removal).
+    pub reused_id: bool,
     /// Stall intervals of the reader (from, until).
     pub stalls: Vec<(u64, Option<u64>)>,
     pub is_probe: bool,
@@ -58,6 +63,8 @@ struct Live {
     watcher: JoinHandle<()>,
     session: usize,
     pace: Pace,
+    /// (settle epoch in which the removal was first noticed, late requests left)
+    late: Option<(u64, u32)>,
 }
 
 #[derive(Clone, Debug)]
@@ -128,6 +135,8 @@ struct Runner {
     reporters: Arc<Mutex<Vec<(String, UplinkReportReader)>>>,
     aggregate: Option<UplinkReportReader>,
     checkpoints: Vec<Checkpoint>,
+    /// Incremented whenever the script lets the system settle or time pass.
+    epoch: u64,
 }
 
 impl Runner {
@@ -135,8 +144,20 @@ impl Runner {
         if let Some(old) = self.live[r].take() {
             self.retire(old, true, true).await;
         }
-        // every attachment is a new connection with its own routing id (as in the real server)
-        let id = Uuid::from_u128(0x1000 + self.sessions.len() as u128);
+        // An attachment is normally a new connection with its own routing id. A connection that the runtime
+        // removed for inactivity (completion RemoteTimedOut) attaches again under the SAME id when it has
+        // something to say to the agent again (as the server's remote task does); other endings of an
+        // attachment (its reader dropped) only happen when the connection itself is gone.
+        let prev = self
+            .sessions
+            .iter()
+            .rev()
+            .find(|s| s.remote == r && !s.is_probe)
+            .map(|s| (s.id, matches!(*s.completion.lock(), Some((_, Some(DisconnectionReason::RemoteTimedOut))))));
+        let (id, reused_id) = match prev {
+            Some((id, true)) if !is_probe && self.rng.chance(2, 3) => (id, true),
+            _ => (Uuid::from_u128(0x1000 + self.sessions.len() as u128), false),
+        };
         let (req_tx, req_rx) = byte_channel(nz(cap_in));
         let (resp_tx, resp_rx) = byte_channel(nz(cap_out));
         let (comp_tx, comp_rx) = promise::promise();
@@ -150,10 +171,14 @@ impl Runner {
         let (wtx, wrx) = mpsc::unbounded_channel();
         let writer = tokio::spawn(writer_task(id, NODE.to_string(), req_tx, wrx, reqs.clone()));
         let comp2 = completion.clone();
+        let completion_v: Arc<Mutex<Option<tokio::time::Instant>>> = Arc::new(Mutex::new(None));
+        let compv2 = completion_v.clone();
         let watcher = tokio::spawn(async move {
             let r = comp_rx.await;
+            *compv2.lock() = Some(tokio::time::Instant::now());
             *comp2.lock() = Some((ticket(), r.ok()));
         });
+        let attached_v = tokio::time::Instant::now();
         let t0 = ticket();
         let req = AgentAttachmentRequest::with_confirmation(id, (resp_tx, req_rx), comp_tx, att_done_tx);
         let mut attached_t1 = None;
@@ -164,9 +189,9 @@ impl Runner {
                 Err(_) => self.stuck.push(format!("attach of remote {r} not confirmed")),
             }
         }
-        self.sessions.push(Session { remote: r, id, attached_t0: t0, attached_t1, reqs, log, completion, stalls: vec![], is_probe });
+        self.sessions.push(Session { remote: r, id, attached_t0: t0, attached_t1, reqs, log, completion, attached_v, completion_v, reused_id, stalls: vec![], is_probe });
         let session = self.sessions.len() - 1;
-        self.live[r] = Some(Live { req_tx: Some(wtx), ctl, drop_signal, reader, reader_done: false, writer, watcher, session, pace });
+        self.live[r] = Some(Live { req_tx: Some(wtx), ctl, drop_signal, reader, reader_done: false, writer, watcher, session, pace, late: None });
     }
 
     /// Drop the halves still held.
@@ -193,13 +218,31 @@ impl Runner {
 
     fn send(&mut self, r: usize, kind: ReqKind, lane: &str, body: bytes::Bytes) {
         let Some(live) = self.live[r].as_mut() else { return };
-        let Some(tx) = live.req_tx.as_ref() else { return };
+        if live.req_tx.is_none() {
+            return;
+        }
         let s = live.session;
         // Once the runtime has told the remote that it was removed, a real peer stops sending on that
         // attachment (requests already under way still race with the removal).
-        if self.sessions[s].completion.lock().is_some() {
-            return;
+        // (A connection that was removed for inactivity learns of it asynchronously, a few task hops later:
+        // up to two more requests, issued before the next point at which the script lets everything settle,
+        // still go out on the old channel, which the runtime's read task still holds.)
+        let done = *self.sessions[s].completion.lock();
+        match done {
+            Some((_, Some(DisconnectionReason::RemoteTimedOut))) => {
+                let epoch = self.epoch;
+                let l = self.live[r].as_mut().expect("live");
+                let (e, left) = l.late.get_or_insert((epoch, 2));
+                if *e != epoch || *left == 0 {
+                    return;
+                }
+                *left -= 1;
+            }
+            Some(_) => return,
+            None => {}
         }
+        let live = self.live[r].as_mut().expect("live");
+        let tx = live.req_tx.as_ref().expect("tx");
         {
             let mut g = self.sessions[s].reqs.lock();
             if g.writer_gone.is_some() {
@@ -281,6 +324,14 @@ impl Runner {
                 let (ci, co, p) = (self.cfg.cap_in[*r], self.cfg.cap_out[*r], self.cfg.pace[*r]);
                 self.attach(*r, ci, co, p, false).await;
             }
+            Step::Reattach(r) => {
+                // only a connection whose attachment the runtime has timed out comes back
+                let timed_out = self.live[*r].as_ref().map_or(false, |l| matches!(*self.sessions[l.session].completion.lock(), Some((_, Some(DisconnectionReason::RemoteTimedOut)))));
+                if timed_out {
+                    let (ci, co, p) = (self.cfg.cap_in[*r], self.cfg.cap_out[*r], self.cfg.pace[*r]);
+                    self.attach(*r, ci, co, p, false).await;
+                }
+            }
             Step::Link(r, lane) => self.send(*r, ReqKind::Link, lane, bytes::Bytes::new()),
             Step::Sync(r, lane) => self.send(*r, ReqKind::Sync, lane, bytes::Bytes::new()),
             Step::Unlink(r, lane) => self.send(*r, ReqKind::Unlink, lane, bytes::Bytes::new()),
@@ -313,9 +364,18 @@ impl Runner {
                     tokio::task::yield_now().await;
                 }
             }
-            Step::Quiesce => settle().await,
-            Step::Settle => self.checkpoint().await,
-            Step::Advance(ms) => tokio::time::sleep(Duration::from_millis(*ms)).await,
+            Step::Quiesce => {
+                settle().await;
+                self.epoch += 1;
+            }
+            Step::Settle => {
+                self.checkpoint().await;
+                self.epoch += 1;
+            }
+            Step::Advance(ms) => {
+                tokio::time::sleep(Duration::from_millis(*ms)).await;
+                self.epoch += 1;
+            }
             Step::Lane(l, c) => self.lane(*l, c.clone()),
             Step::AgentReturn(_) | Step::StopAgent => {}
         }
@@ -398,6 +458,7 @@ pub fn run_case(cfg: &Config, script: &[Step], rng: &mut Rng) -> Obs {
             reporters,
             aggregate,
             checkpoints: vec![],
+            epoch: 0,
         };
 
         let mut agent_handle = Some(agent_handle);
